@@ -47,19 +47,20 @@ def collect(h):
     if not m:
         raise h.Missing(f"{rel3}: lookupInCtx: cannot locate the search of the current workspace")
     items.append(("parser_lookup_respects_package", "bool", "true" if re.search(r"lookingUpInSchema\s*=\s*ws\.pkg", m.group(1)) else "false", rel3 + " lookupInCtx"))
-    # F27: are INHERITS lists resolved in the context of the package that wrote them? four sites:
+    # F27: are INHERITS lists resolved in the context of the package that wrote them? five sites:
     # lookupInCtx (inherited workspaces), analyzeWorkspace.checkChain, includeFromInheritedWorkspaces,
-    # getTableInheritanceChain
+    # getTableInheritanceChain, getTableTypeKind
     sites = [
         bool(re.search(r"lookInInherted\(f,\s*c\.inPackage\(wSchema\)\)", body)) and bool(re.search(r"resolveInCtx\(dq,\s*c,", body)),
         bool(re.search(r"checkChain\(w,\s*c\.inPackage\(wpkg\)\)", h.func_body(rel2, r"^func analyzeWorkspace\(", "analyzeWorkspace"))),
         bool(re.search(r"addFromInheritedWs\(baseWs,\s*ictx\.inPackage\(basePkg\)\)", h.func_body(rel2, r"^func includeFromInheritedWorkspaces\(", "includeFromInheritedWorkspaces"))),
         bool(re.search(r"vf\(t,\s*c\.contextOf\(t,\s*pkg\)\)", h.func_body(rel2, r"^func getTableInheritanceChain\(", "getTableInheritanceChain"))),
+        bool(re.search(r"getTableInheritanceChain\(table,\s*c\.contextOf\(table,\s*pkg\)\)", h.func_body(rel2, r"^func getTableTypeKind\(", "getTableTypeKind"))),
     ]
     if any(sites) and not all(sites):
         raise h.Missing(f"{rel2}/{rel3}: INHERITS lists are resolved in their own package at some sites only: {sites}")
     items.append(("parser_inherits_in_own_package", "bool", "true" if all(sites) else "false",
-                  rel3 + " lookupInCtx; " + rel2 + " analyzeWorkspace, includeFromInheritedWorkspaces, getTableInheritanceChain"))
+                  rel3 + " lookupInCtx; " + rel2 + " analyzeWorkspace, includeFromInheritedWorkspaces, getTableInheritanceChain, getTableTypeKind"))
     # F29: does the last analysis pass resolve the reference fields of a workspace descriptor?
     body = h.func_body(rel2, r"^func analyse\(", "analyse")
     h.find(rel2, r"case \*ViewStmt:\s*\n\s*analyseViewRefFields\(v\.Items, ictx\)", "analyse: pass 6")
